@@ -129,6 +129,10 @@ def must_consume(n, roles, recv_roles, val_roles):
                 return True
             if s['k'] == 'let' and 'i' in s and must_consume(s['i'], roles, recv_roles, val_roles):
                 return True
+            # a statement that can leave the loop body early (`if .. { continue }`) before anything was consumed: the entries on
+            # that path are dropped - unless the guard says they are redundant (empty, or a subset of what the receiver holds)
+            if s['k'] in ('expr', 'semi') and _may_exit_early(s['e'], roles, recv_roles, val_roles):
+                return False
         return 'e' in n and must_consume(n['e'], roles, recv_roles, val_roles)
     if k == 'if':
         if must_consume(n['c'], roles, recv_roles, val_roles):
@@ -158,6 +162,33 @@ def must_consume(n, roles, recv_roles, val_roles):
             return True
         return must_consume(n['r'], roles, recv_roles, val_roles)
     return any(must_consume(c, roles, recv_roles, val_roles) for c in children(n) if isinstance(c, dict) and c.get('k') not in ('let',))
+
+
+def _may_exit_early(e, roles, recv_roles, val_roles):
+    """an `if <cond> { continue / break / return }` (no else) whose condition does not establish that the value is redundant"""
+    from guards import diverges
+    e = strip(e)
+    if e.get('k') != 'if' or 'el' in e or not diverges(e['th']):
+        return False
+    # a panic (assert!) is loud, not a dropped value: only continue / break / return leave quietly
+    if not any(y.get('k') in ('continue', 'break', 'ret') for y, _ in walk(e['th'])):
+        return False
+    c = strip(e['c'])
+    neg = False
+    while c.get('k') == 'unary' and c.get('op') == 'not':
+        c = strip(c['e']); neg = not neg
+    if c.get('k') == 'mcall' and not neg:
+        r = chain_root(c['r'])
+        a = chain_root(c['a'][0]) if c.get('a') else None
+        rr = roles.get(r['id']) if r is not None else None
+        ra = roles.get(a['id']) if a is not None else None
+        if c['m'] == 'is_empty' and rr in val_roles:
+            return False                                     # nothing to carry over
+        if c['m'] == 'is_subset' and rr in val_roles and ra is not None and (ra in recv_roles or ra.split('.')[0] in recv_roles):
+            return False                                     # value is contained in what the receiver holds
+        if c['m'] == 'is_superset' and ra in val_roles and rr is not None and (rr in recv_roles or rr.split('.')[0] in recv_roles):
+            return False
+    return True
 
 
 def _arm_diverges_or_break(a):
